@@ -7,6 +7,8 @@ use syn::*;
 pub struct Output {
     pub coq: String,
     pub report: String,
+    /// Rust table of the parser functions the harness can call one by one (per-function correspondence)
+    pub fns_rs: String,
 }
 
 const PARSER_FILES: &[(&str, &str)] = &[
@@ -1293,8 +1295,83 @@ pub fn translate(repo: &Path) -> Output {
     for (n, h) in &native_fns {
         report.push_str(&format!("NATIVE-FN {} {}\n", n, h));
     }
-    Output { coq: out, report }
+    let fns_rs = emit_fn_table(repo, &files, &modules);
+    Output { coq: out, report, fns_rs }
 }
+
+/// One entry per `pub fn f(i: &[u8]) -> IResult<&[u8], T>` reachable through `pub mod`s: the harness calls the real
+/// function on a buffer and prints verdict, consumed length and (for plain value types) the value.
+fn emit_fn_table(repo: &Path, files: &[(String, String)], modules: &[Module]) -> String {
+    let mut out = String::new();
+    out.push_str("// GENERATED by rs2coq from the working tree: the parser functions that can be called one by one.\n");
+    out.push_str("#[allow(unused_imports)]\nuse crate::fnrun::{verdict, verdict_plain};\n");
+    out.push_str("pub const FNS: &[(&str, fn(&[u8]) -> String)] = &[\n");
+    for ((name, rel), m) in files.iter().zip(modules.iter()) {
+        // Rust path of the module, and whether every module on the way is `pub mod`
+        let inner = rel.trim_start_matches("imap-proto/src/").trim_end_matches(".rs").trim_end_matches("/mod");
+        let segs: Vec<&str> = inner.split('/').collect();
+        let mut visible = true;
+        for k in 1..segs.len() {
+            // segs[..k] is the parent module; its file is <parent>/mod.rs or <parent>.rs
+            let parent = segs[..k].join("/");
+            let cand = [format!("imap-proto/src/{}/mod.rs", parent), format!("imap-proto/src/{}.rs", parent)];
+            let src = cand.iter().filter_map(|c| std::fs::read_to_string(repo.join(c)).ok()).next().unwrap_or_default();
+            let src = if k == 1 && src.is_empty() { std::fs::read_to_string(repo.join("imap-proto/src/lib.rs")).unwrap_or_default() } else { src };
+            let decl = format!("pub mod {}", segs[k]);
+            if !src.lines().any(|l| l.trim_start().starts_with(&decl)) {
+                visible = false;
+            }
+        }
+        let lib = std::fs::read_to_string(repo.join("imap-proto/src/lib.rs")).unwrap_or_default();
+        if !lib.lines().any(|l| l.trim_start().starts_with(&format!("pub mod {}", segs[0]))) {
+            visible = false;
+        }
+        if !visible {
+            continue;
+        }
+        let path = format!("imap_proto::{}", segs.join("::"));
+        for f in &m.fns {
+            if !matches!(f.vis, syn::Visibility::Public(_)) || f.sig.inputs.len() != 1 {
+                continue;
+            }
+            if f.sig.generics.type_params().next().is_some() || f.sig.generics.const_params().next().is_some() {
+                continue;
+            }
+            let arg_ty = match f.sig.inputs.first() {
+                Some(FnArg::Typed(t)) => tokens_of(&t.ty).replace(' ', ""),
+                _ => continue,
+            };
+            if !(arg_ty == "&[u8]" || (arg_ty.starts_with("&'") && arg_ty.ends_with("[u8]"))) {
+                continue;
+            }
+            let ret = match &f.sig.output {
+                syn::ReturnType::Type(_, t) => tokens_of(t).replace(' ', ""),
+                _ => continue,
+            };
+            let value_ty = if ret.starts_with("IResult<") {
+                // IResult<&[u8],T> (possibly with lifetimes)
+                match ret.find(',') {
+                    Some(c) => ret[c + 1..ret.len() - 1].to_string(),
+                    None => continue,
+                }
+            } else if ret.contains("ParseResult") {
+                "Response".to_string()
+            } else {
+                continue;
+            };
+            // plain value types are shown; anything else is compared on verdict and consumed length only
+            let mut t = value_ty.clone();
+            for w in ["Option<", "Vec<", "Cow<", "&'a", "&'_", "&", "[u8]", "str", "u32", "u64", "'a,", "'_,", "'static,", ">", ","] {
+                t = t.replace(w, "");
+            }
+            let plain = t.is_empty();
+            out.push_str(&format!("    (\"{}::{}\", |i| {}(i, {}::{}(i))),\n", name, f.sig.ident, if plain { "verdict_plain" } else { "verdict" }, path, f.sig.ident));
+        }
+    }
+    out.push_str("];\n");
+    out
+}
+
 
 struct Ranks {
     max_depth: u64,
